@@ -604,5 +604,196 @@ theorem utf8_suffix_exact (a b : List UInt8) (h : validUtf8 (a ++ b) = true) :
       have hn := head_cont r hy
       rw [not_valid_of_head_none hn (by simp), hn]; rfl
 
+/-! ## prefix check -/
+
+theorem all_drop_take {x : UInt8} {ys : List UInt8} (h : ys.all isCont = true) (n : Nat) {k : Nat}
+    (hk : 1 ≤ k) : (((x :: ys).take n).drop k).all isCont = true := by
+  rw [List.all_eq_true] at *
+  intro y hy
+  cases n with
+  | zero => simp at hy
+  | succ n =>
+    cases k with
+    | zero => omega
+    | succ k =>
+      rw [List.take_succ_cons, List.drop_succ_cons] at hy
+      exact h y (List.mem_of_mem_take (List.mem_of_mem_drop hy))
+
+/-- `classifyAt` only looks at the bytes from `start` on -/
+theorem At_shift (a0 : List UInt8) (x : UInt8) {ys : List UInt8} (h : ys.all isCont = true) (n : Nat)
+    {k : Nat} (hk : 1 ≤ k) :
+    isWhole (classifyAt (a0 ++ x :: ys) a0.length n k) = isWhole (classifyAt (x :: ys) 0 n 1) := by
+  unfold classifyAt
+  simp only [List.length_append, Nat.add_sub_cancel_left, List.drop_left, Nat.sub_zero, List.drop_zero,
+    all_drop_take h n hk, all_drop_take h n (Nat.le_refl 1), if_true]
+  split
+  · cases decode (List.take n (x :: ys)) with
+    | none => rfl
+    | some m => cases m <;> rfl
+  · rfl
+
+/-- the backward scan from a continuation byte inside `ys` reaches the start byte `x` -/
+theorem Back (a0 : List UInt8) (x : UInt8) {ys : List UInt8} {n : Nat} (hx : byteK x = some (.start n))
+    (h : ys.all isCont = true) (m : Nat) (hm : m ≤ 3) :
+    ∀ (j : Nat), j ≤ ys.length → j ≤ m + 1 →
+      classifyBack (a0 ++ x :: ys) (a0.length + m) (a0.length + j + 1) =
+        classifyAt (a0 ++ x :: ys) a0.length n (m + 1) := by
+  intro j
+  induction j with
+  | zero =>
+    intro _ _
+    simp only [classifyBack, List.getElem?_append_right (Nat.le_refl _), Nat.sub_self,
+      List.getElem?_cons_zero, hx, Nat.add_sub_cancel_left]
+  | succ j ih =>
+    intro hj hjm
+    have hy : ∃ y, (a0 ++ x :: ys)[a0.length + (j + 1)]? = some y ∧ isCont y = true := by
+      rw [List.getElem?_append_right (by omega), Nat.add_sub_cancel_left, List.getElem?_cons_succ]
+      have hlt : j < ys.length := by omega
+      refine ⟨ys[j], List.getElem?_eq_getElem hlt, ?_⟩
+      exact (List.all_eq_true.mp h) _ (List.getElem_mem hlt)
+    obtain ⟨y, hy1, hy2⟩ := hy
+    rw [show a0.length + (j + 1) + 1 = (a0.length + (j + 1)) + 1 from rfl]
+    unfold classifyBack
+    simp only [hy1, byteK_cont hy2]
+    rw [if_neg (by omega)]
+    exact ih (by omega) (by omega)
+
+
+/-- the prefix check on `a0 ++ d`, `d` a non-empty prefix of a character, asks the table about `d` -/
+theorem prefix_eval (a0 : List UInt8) {x : UInt8} {ys : List UInt8} (h : Shape x ys) :
+    utf8ValidatePrefix (a0 ++ x :: ys) = (utf8Head (x :: ys)).isSome := by
+  obtain ⟨hx, hall, hlen⟩ := h
+  have hne : (a0 ++ x :: ys).isEmpty = false := by
+    cases a0 <;> rfl
+  have hidx : (a0 ++ x :: ys).length - 1 = a0.length + ys.length := by
+    rw [List.length_append, List.length_cons]; omega
+  unfold utf8ValidatePrefix
+  rw [hne, hidx, ← whole0_eq]
+  simp only [Bool.false_eq_true, if_false]
+  rcases hx with ⟨h1, rfl⟩ | h1
+  · -- ASCII
+    rw [classify_zero, byteK_ascii h1]
+    simp only [classify, List.length_nil, Nat.add_zero, List.getElem?_append_right (Nat.le_refl _),
+      Nat.sub_self, List.getElem?_cons_zero, byteK_ascii h1]
+    rfl
+  · obtain ⟨n, hn⟩ : ∃ n, byteK x = some (.start n) := by
+      rcases (by omega : (0xC0 ≤ x.toNat ∧ x.toNat < 0xE0) ∨ (0xE0 ≤ x.toNat ∧ x.toNat < 0xF0) ∨
+        (0xF0 ≤ x.toNat ∧ x.toNat < 0xF8)) with h2 | h2 | h2
+      · exact ⟨_, byteK_s2 h2⟩
+      · exact ⟨_, byteK_s3 h2⟩
+      · exact ⟨_, byteK_s4 h2⟩
+    rw [classify_zero, hn]
+    simp only
+    cases ys with
+    | nil =>
+      simp only [classify, List.length_nil, Nat.add_zero, List.getElem?_append_right (Nat.le_refl _),
+        Nat.sub_self, List.getElem?_cons_zero, hn]
+      exact At_shift a0 x hall n (Nat.le_refl 1)
+    | cons y0 ys' =>
+      have hy : ∃ y, (a0 ++ x :: y0 :: ys')[a0.length + (ys'.length + 1)]? = some y ∧ isCont y = true := by
+        rw [List.getElem?_append_right (by omega), Nat.add_sub_cancel_left, List.getElem?_cons_succ]
+        have hlt : ys'.length < (y0 :: ys').length := by simp
+        refine ⟨(y0 :: ys')[ys'.length], List.getElem?_eq_getElem hlt, ?_⟩
+        exact (List.all_eq_true.mp hall) _ (List.getElem_mem hlt)
+      obtain ⟨y, hy1, hy2⟩ := hy
+      simp only [List.length_cons] at hlen ⊢
+      unfold classify
+      simp only [hy1, byteK_cont hy2]
+      have := Back a0 x hn hall (ys'.length + 1) (by omega) ys'.length (by simp) (by omega)
+      rw [show a0.length + (ys'.length + 1) = a0.length + ys'.length + 1 from rfl] at this ⊢
+      rw [this]
+      exact At_shift a0 x hall n (by omega)
+
+/-- a non-empty part before a cut of a valid string ends with a whole character (boundary) or with
+a proper non-empty prefix of a character (interior), after a valid string -/
+theorem Valid.cut_left {l : List UInt8} (h : Valid l) : ∀ (a b : List UInt8), a ++ b = l → a ≠ [] →
+    ∃ a0 d e, a = a0 ++ d ∧ Valid a0 ∧ d ≠ [] ∧ IsChar (d ++ e) := by
+  induction h with
+  | nil =>
+    intro a b e ha
+    exact absurd (List.append_eq_nil_iff.mp e).1 ha
+  | @cons c r hc hr ih =>
+    intro a b e ha
+    rcases List.append_eq_append_iff.mp e with ⟨as, e1, _⟩ | ⟨bs, e1, e2⟩
+    · exact ⟨[], a, as, rfl, Valid.nil, ha, e1 ▸ hc⟩
+    · by_cases hbs : bs = []
+      · subst hbs
+        rw [List.append_nil] at e1
+        exact ⟨[], c, [], by rw [e1]; rfl, Valid.nil, isChar_ne_nil hc, by rw [List.append_nil]; exact hc⟩
+      · obtain ⟨a0, d, e', h1, h2, h3, h4⟩ := ih bs b e2.symm hbs
+        exact ⟨c ++ a0, d, e', by rw [e1, h1, List.append_assoc], Valid.cons hc h2, h3, h4⟩
+
+theorem utf8_prefix_exact (a b : List UInt8) (h : validUtf8 (a ++ b) = true) :
+    utf8ValidatePrefix a = validUtf8 a := by
+  rw [validUtf8_iff] at h
+  by_cases ha : a = []
+  · subst ha; rfl
+  · obtain ⟨a0, d, e, rfl, h0, hd, hde⟩ := h.cut_left a b rfl ha
+    obtain ⟨x, ys, rfl, hsh, _⟩ := prefix_shape hde hd
+    rw [prefix_eval a0 hsh]
+    by_cases he : e = []
+    · subst he
+      rw [List.append_nil] at hde
+      obtain ⟨v, hv⟩ := hde
+      rw [hv, (validUtf8_iff _).mpr (h0.append (Valid.single ⟨v, hv⟩))]; rfl
+    · have hn := head_proper_prefix hde he
+      rw [hn]
+      symm
+      show validUtf8 (a0 ++ x :: ys) = false
+      rw [Bool.eq_false_iff]; intro hv
+      rw [validUtf8_iff] at hv
+      have := (h0.cancel hv).head_isSome hd
+      rw [hn] at this; cases this
+
+theorem utf8_subseq_exact (a b c : List UInt8) (h : validUtf8 (a ++ (b ++ c)) = true) :
+    (utf8ValidatePrefix b && utf8ValidateSuffix b) = validUtf8 b := by
+  have h' := (validUtf8_iff _).mp h
+  cases b with
+  | nil => rfl
+  | cons y r =>
+    rcases h'.cut_right a ((y :: r) ++ c) rfl with hv | ⟨y', r', e, hy⟩
+    · have hp := utf8_prefix_exact (y :: r) c ((validUtf8_iff _).mpr hv)
+      rw [hp]
+      cases hb : validUtf8 (y :: r) with
+      | false => rfl
+      | true => rw [utf8_suffix_exact [] (y :: r) hb, hb]; rfl
+    · cases e
+      have hn := head_cont r hy
+      have : utf8ValidateSuffix (y :: r) = false := by
+        simp only [utf8ValidateSuffix, List.isEmpty_cons, Bool.false_eq_true, if_false]
+        rw [whole0_eq, hn]; rfl
+      rw [this, not_valid_of_head_none hn (by simp), Bool.and_false]
+
+/-- the format laws of `H5V.Props.C11` hold for UTF-8 -/
+theorem laws_utf8 : Laws Format.utf8 where
+  noFixup _ _ := rfl
+  valid_nil := rfl
+  valid_append := utf8_valid_append
+  suffix_exact := utf8_suffix_exact
+  prefix_exact := utf8_prefix_exact
+  subseq_exact := utf8_subseq_exact
+  encode_valid := utf8_encode_valid
+  chars_total _ _ h := h
+  chars_cut := utf8_chars_cut
+
+/-! ## non-vacuity -/
+
+-- "é€😀"
+example : validUtf8 [0xC3, 0xA9, 0xE2, 0x82, 0xAC, 0xF0, 0x9F, 0x98, 0x80] = true := by decide
+example : utf8Chars [0xC3, 0xA9, 0xE2, 0x82, 0xAC, 0xF0, 0x9F, 0x98, 0x80] =
+    some [(0, 0xE9), (2, 0x20AC), (5, 0x1F600)] := by decide
+example : validUtf8 [0xC0, 0x80] = false := by decide
+example : validUtf8 [0xED, 0xA0, 0x80] = false := by decide
+example : validUtf8 [0xF4, 0x90, 0x80, 0x80] = false := by decide
+example : validUtf8 [0xE2, 0x82] = false := by decide
+example : utf8ValidatePrefix [0xE2, 0x82] = false := by decide
+example : utf8ValidatePrefix [0xE2, 0x82, 0xAC] = true := by decide
+example : utf8ValidateSuffix [0x82, 0xAC] = false := by decide
+example : utf8ValidateSuffix [0xE2, 0x82, 0xAC] = true := by decide
+-- the futf checks alone are not a validator: exactness needs the surrounding valid string
+example : utf8ValidatePrefix [0xC2, 0x80, 0x80] = true ∧ validUtf8 [0xC2, 0x80, 0x80] = false := by decide
+example : encodeUtf8 0x20AC = some [0xE2, 0x82, 0xAC] := by decide
+example : encodeUtf8 0xD800 = none := by decide
+
 end H5V.Lemmas.Tendril.Utf8
 
